@@ -22,7 +22,8 @@ THEOREMS = [
     "BSVerif.Props.C11.consts_surrogates",
 ]
 RULE = ("valid scalar lists (boundary-biased per UTF-8/UTF-16 length class; thorough: every one of the 1,112,064 scalars) "
-        "x 9 width pairs via Transcode + LE/BE Decode/Encode classes x {skip,throw} x marks x non-empty prior output; "
+        "x 9 width pairs via Transcode + LE/BE Decode/Encode classes x {skip,throw} x marks x non-empty prior output; Convert::To between the "
+        "string types (std::basic_string / string_view / C string sources, U+0000 inside the text, init-argument strings); "
         "non-trivial = op whose input has at least one multi-unit scalar or non-empty prior output; distinct = distinct op lines")
 EXHAUSTIVE = {"quick": False, "thorough": True}
 ASSUMPTIONS = ["code units fed to the model are < 2^w (what the C++ character type can hold)",
@@ -65,6 +66,20 @@ def text_ops(rng, t, full=False):
     return ops
 
 
+def convert_ops(rng, t):
+    """Convert::To<string type>(string source) for every ordered pair of string types and every form of source (std::basic_string,
+    string_view, C string) with and without an existing string as init-argument; U+0000 may be INSIDE the text (basic_string / view)"""
+    ops = []
+    ws = ["8", "16", "32", "w"]
+    for _ in range(3):
+        a, b = rng.choice(ws), rng.choice(ws)
+        wi, wo = (32 if a == "w" else int(a)), (32 if b == "w" else int(b))
+        out0 = units(wo, encs(wo, [rand_scalar(rng) for _ in range(rng.choice([0, 0, 0, 1, 3]))]))
+        forms = ["view"] + (["str"] if a != b else []) + (["cstr"] if 0 not in t else [])
+        ops.append(f"utf.convert {a} {b} {rng.choice(forms)} {out0} {units(wi, encs(wi, t))}")
+    return ops
+
+
 def wstr_ops(tier, rng, boost=1):
     """string values and keys of every width inside the four archives (save + load through the real archives)"""
     def xml_char(c):
@@ -104,6 +119,17 @@ def gen(tier, rng, boost=1):
         ln = rng.choice([0, 1, 1, 2, 3, 5, 8, 13, 40, 200] if tier == "quick" else [0, 1, 2, 3, 5, 8, 13, 40, 200, 1000, 4096])
         t = [rand_scalar(rng) for _ in range(ln)]
         ops += text_ops(rng, t)
+        if ln and rng.random() < 0.5:
+            t = list(t)
+            t[rng.randrange(len(t))] = 0            # U+0000 inside the text
+        ops += convert_ops(rng, t)
+    for c in BOUNDARY:
+        if is_scalar(c):
+            for a in ("8", "16", "32", "w"):
+                for b in ("8", "16", "32", "w"):
+                    if a != b:
+                        wi = 32 if a == "w" else int(a)
+                        ops.append(f"utf.convert {a} {b} str - {units(wi, encs(wi, [0x41, c, 0, c, 0x42]))}")
     ops += wstr_ops(tier, rng, boost)
     if tier == "thorough":
         # exhaustive: every scalar value individually, in blocks of 64 scalars per op (each op = 64 scalars
